@@ -236,7 +236,13 @@ where
                 debug!(
                     channel_filter_key = %key,
                     "All channels dropped");
-                self_.key_counts.remove(&key);
+                // The notification may be stale: a new channel with this key may have been
+                // admitted since it was sent. Only forget the key if none of its channels is alive.
+                if let Entry::Occupied(o) = self_.key_counts.entry(key) {
+                    if o.get().strong_count() == 0 {
+                        o.remove();
+                    }
+                }
                 self_.key_counts.compact(0.1);
                 Poll::Ready(())
             }
